@@ -36,8 +36,12 @@ def cases(tier, seed):
     rng = np.random.default_rng([seed, 1313])
     n_single, n_mesh = (442, 30) if tier == "quick" else (51000, 2500)
     for i in range(n_single):
-        yield {"kind": "single", "k": int(rng.integers(3, 9)), "radius": float(10 ** rng.uniform(-0.3 if i % 4 else -3.0, math.log10(60))),
-               "fseed": int(rng.integers(0, 10**6)), "placement": gen.FACE_PLACEMENTS[i % len(gen.FACE_PLACEMENTS)],
+        placement = gen.FACE_PLACEMENTS[i % len(gen.FACE_PLACEMENTS)]
+        radius = float(10 ** rng.uniform(-0.3 if i % 4 else -3.0, math.log10(60)))
+        if ("pole" in placement) and (i // len(gen.FACE_PLACEMENTS)) % 3 == 0:
+            radius = float(rng.uniform(45.0, 84.0))  # very coarse meshes: a face that holds a pole and reaches across the equator
+        yield {"kind": "single", "k": int(rng.integers(3, 9)), "radius": radius,
+               "fseed": int(rng.integers(0, 10**6)), "placement": placement,
                "pseed": int(rng.integers(0, 10**6))}
     for i in range(n_mesh):
         yield {"kind": "mesh", "mesh": gen.random_mesh(rng, 60 if tier == "quick" else 250, families=["voronoi", "merged", "cubed_sphere", "latlon_patch", "polyhedron", "fine_patch", "sample"])}
